@@ -351,7 +351,12 @@ class C04(Profile):
             'of APPEND (1-3 messages)/COPY/MOVE into any mailbox, "flag the '
             'highest \\Deleted then EXPUNGE" followed by further adds, '
             'SELECT/STATUS, several sessions per step (concurrent '
-            'appenders), and quiet RENAME / DELETE+CREATE steps. After every '
+            'appenders), on maildir in 30% of the steps a delivery agent '
+            'dropping a file into new/ or cur/ at a scheduler position '
+            'inside the step, and quiet RENAME / DELETE+CREATE steps. A '
+            'STATUS/SELECT answered inside a step must report a UIDNEXT '
+            'above (highest UID before the step) + (messages it counts '
+            'beyond those that existed before the step). After every '
             'step the observer takes STATUS (UIDNEXT UIDVALIDITY MAILBOXID) '
             'and a dump with tokens of every mailbox. Oracle per (MAILBOXID, '
             'UIDVALIDITY): dumps ascending and duplicate-free; a UID never '
